@@ -71,6 +71,20 @@ def make_config(seed, tier="quick"):
         crash_cap=40 if not thorough else 120,
         file_journal=True,
     )
+    # swarm profile "overlap" (1 run in 4): parked application hooks, slow transport closes and connection breaks
+    # together, so that one task's disconnect() overlaps another task's suspended message processing
+    r2 = random.Random(seed ^ 0xC09A)
+    if r2.random() < 0.25:
+        cfg.update(
+            p_hook=r2.choice([0.3, 0.6]),
+            p_slow_close=r2.choice([0.5, 0.9]),
+            slow_close_s=r2.choice([0.3, 1.3, 2.6]),
+            max_breaks=r2.choice([2, 3]),
+            w_break=1.0,
+            n_sends_a=max(cfg["n_sends_a"], 5),
+            n_sends_b=max(cfg["n_sends_b"], 5),
+            profile="overlap",
+        )
     cfg["settle_s"] = 8.0 * cfg["hb"] + 14.0
     return cfg
 
@@ -118,6 +132,8 @@ class RestartSim(pair.PairSim):
         self.killed_last_delivery = {"A": None, "B": None}
         self.clean_since = None  # evno of the last clean graceful restart (for the no-ResendRequest clause)
         self.qchecks = 0
+        self.ichecks = 0
+        self.idle_seen = None
         self.send_tasks = {"A": [], "B": []}
         self.conn_tasks = {"A": [], "B": []}
         self.old_journals = []
@@ -378,9 +394,15 @@ class RestartSim(pair.PairSim):
             agreed = ain == bout and bin_ == aout
             live = (j.live.next_num_in, j.live.next_num_out)
             ev_begin = self.rec("graceful_begin", label, int(with_logout), live)
+            gen0 = self.gen[label]
             if with_logout:
                 await old.disconnect(ConnectionState.DISCONNECTED_WCONN_TODAY, logout_message="")
                 await asyncio.sleep(0.05)
+                if (label, gen0) in self.dead:
+                    # the process was killed while it was shutting down (an application hook was parked, the
+                    # listener still open): this restart is the kill's, its respawn is already scheduled
+                    self.probe("kill_during_graceful_shutdown")
+                    return
                 live = (j.live.next_num_in, j.live.next_num_out)
             # stop the old incarnation
             gen = self.gen[label]
@@ -439,6 +461,21 @@ class RestartSim(pair.PairSim):
             if (v, self.gen[v]) not in self.dead:
                 self.qchecks += 1
                 self.check_stored_equals_live(v, "quiescent-point")
+        # (1b) ... and at idle points of any kind - nothing runnable, no hook parked, no send in progress, whatever
+        # the session state (mid-disconnect, awaiting a resend, logged out): everything an endpoint did so far is
+        # completed, so a new object on its journal must load what the live one holds. Judged when the counters
+        # moved since the last look while an endpoint was not ACTIVE (the ACTIVE case is clause 1).
+        if (self.ichecks < 6 and self.phase == FAULT and not self.kill_done and not self.restart_busy
+                and not self.loop._ready and not self.pending_hooks and not self.inprogress and self.net.conns):
+            a, b = self.eps["A"], self.eps["B"]
+            seen = (self.counters("A"), self.counters("B"))
+            if seen != self.idle_seen and (a.connection_state != ACTIVE or b.connection_state != ACTIVE):
+                self.idle_seen = seen
+                self.ichecks += 1
+                self.probe("idle_point_outside_active_checked")
+                for label in ("A", "B"):
+                    if (label, self.gen[label]) not in self.dead:
+                        self.check_stored_equals_live(label, "idle-point")
         try:
             super().boundary_check()
         except Violation as e:
@@ -466,7 +503,7 @@ class RestartSim(pair.PairSim):
         if got != live:
             which = "in" if got[0] != live[0] else "out"
             raise Violation("restored-counters", f"C09/restored-counters-differ/{when}/{which}",
-                            f"{label} at a quiescent point: live (next_in, next_out)={live}, a new object on the journal file loads {got}")
+                            f"{label} at {'an idle' if when == 'idle-point' else 'a quiescent'} point: live (next_in, next_out)={live}, a new object on the journal file loads {got}")
 
     def ep_event(self, ep, kind, *args):
         super().ep_event(ep, kind, *args)
